@@ -22,7 +22,7 @@ SPEC = dict(
                  "a traceback exit counts as 'exits non-zero'; what is asserted is that nothing changed"],
     required=["fault_runs", "faults_at_later_write_position", "fault:pattern", "fault:file-removed", "fault:version",
               "fault:version:auto-increment-rejected",
-              "engine:v2", "engine:v1", "commit_on_runs", "dry_reported_error", "fault:already-new", "fault:shadowed"],
+              "engine:v2", "engine:v1", "commit_on_runs", "dry_reported_error", "fault:already-new", "fault:shadowed", "faults_in_an_extra_pattern_of_the_config_file"],
     anchors=[("v2rewrite", "rewrite_files"), ("v1rewrite", "rewrite_files"), ("rewrite", "iter_path_patterns_items"),
              ("cli", "_update"), ("cli", "_try_update")],
     exhaustive={"quick": False, "thorough": False},
@@ -79,7 +79,10 @@ def run_case(ctx, case):
         faults = []
         seen_fp = set()
         for pl in q.plants:
-            if pl.file != q.cfg_name and (pl.file, pl.raw) not in seen_fp:
+            # (every pattern of every other file, and a pattern the config file lists for a further line of itself)
+            if (pl.file != q.cfg_name or "released as" in pl.raw) and (pl.file, pl.raw) not in seen_fp:
+                if pl.file == q.cfg_name:
+                    ctx.count("faults_in_an_extra_pattern_of_the_config_file")
                 seen_fp.add((pl.file, pl.raw))
                 faults.append(("pattern", pl))
         for fn in q.files:
